@@ -52,6 +52,8 @@ type LoopContract struct {
 
 type FuncContract struct {
 	deadCount int
+	ignore    []string // callees whose contracts are not used in this body
+	cbObserves map[string]string // callback <param> observes <ghost>
 	asserts   map[ast.Stmt][]*Clause // at "<stmt>" assert P
 	expand    []string // callees expanded from source in this body
 	key      string
@@ -97,6 +99,7 @@ type Program struct {
 	funcs  map[string]*FuncInfo // FullName -> decl
 	contracts map[string]*FuncContract
 	globalsAssigned map[types.Object]bool
+	knownPosts      map[string]bool
 	globalConstInit map[types.Object]constant.Value // package variables with a constant initialiser
 	errs   []string
 	bindIssues []bindIssue // contract clauses that no longer bind (reported as cannot-decide, verification continues)
@@ -360,7 +363,7 @@ func installUniverse() {
 
 var clauseKinds = map[string]bool{"guard": true, "callback": true, "step": true, "requires": true, "ensures": true, "invariant": true, "decreases": true,
 	"modifies": true, "props": true, "trusted": true, "pure": true, "inline": true, "unroll": true, "lemma": true,
-	"assume": true, "nopanic": true, "dead": true, "expand": true, "assert": true, "heapframe": true}
+	"assume": true, "nopanic": true, "dead": true, "expand": true, "ignore": true, "assert": true, "heapframe": true}
 
 var headRe = regexp.MustCompile(`^func\s+(.+)$`)
 var clauseRe = regexp.MustCompile(`^(?:(loop|closure|if)#(\d+)\s+)?([a-z]+)(?:\[([A-Za-z0-9, ]+)\])?(?:\s+(.*))?$`)
@@ -1325,6 +1328,10 @@ func (p *Program) fillContract(fc *FuncContract, clauses []*rawClause, body *ast
 			// expand <func>: calls of that function in this body are expanded from its source instead of being
 			// replaced by its contract (used for db.View / db.Update with a function-literal argument)
 			fc.expand = append(fc.expand, strings.Fields(rc.text)...)
+		case "ignore":
+			// ignore <func>...: in this body, calls of these functions are treated as calls without a contract
+			// (arbitrary results, no precondition to prove, nothing of their postcondition assumed)
+			fc.ignore = append(fc.ignore, strings.Fields(rc.text)...)
 		case "dead":
 			// dead returns n: exactly n return statements are unreachable under the callee contracts (defensive
 			// error checks after calls that cannot fail there); the count is checked, not ordinals, so that adding
@@ -1350,8 +1357,18 @@ func (p *Program) fillContract(fc *FuncContract, clauses []*rawClause, body *ast
 		case "callback":
 			// callback <param> preserves <expr>: calls through the function-valued parameter leave <expr> unchanged
 			f := strings.Fields(rc.text)
+			if len(f) == 3 && f[1] == "observes" {
+				// callback <param> observes <name>: calls through the parameter have no side effects and their first
+				// result is the ghost observer <name> of the arguments (byte slices by content); assumed of the
+				// function values callers pass
+				if fc.cbObserves == nil {
+					fc.cbObserves = map[string]string{}
+				}
+				fc.cbObserves[f[0]] = f[2]
+				continue
+			}
 			if len(f) < 3 || f[1] != "preserves" {
-				return fmt.Errorf("%s: want `callback <param> preserves <expr>`", rc.where)
+				return fmt.Errorf("%s: want `callback <param> preserves <expr>` or `callback <param> observes <name>`", rc.where)
 			}
 			sub := &rawClause{kind: "callback", text: strings.TrimSpace(strings.SplitN(rc.text, "preserves", 2)[1])}
 			cl, err := p.checkClauseAny(fc, sub, rc.where, body.Rbrace)
@@ -1437,4 +1454,35 @@ func (p *Program) checkClauseAny(fc *FuncContract, rc *rawClause, where string, 
 		props = fc.props
 	}
 	return &Clause{kind: rc.kind, props: props, ownProps: rc.props, text: rc.text, expr: expr, info: info, where: where, assume: rc.kind == "assume"}, nil
+}
+
+
+// knownPostFinding: is this postcondition of fn the subject of a listed known finding (/verif/known_findings.txt)?
+func (p *Program) knownPostFinding(fnKey, clauseText string) bool {
+	if p.knownPosts == nil {
+		p.knownPosts = map[string]bool{}
+		for k := range loadKnownFindings(filepath.Join(verifRoot(), "known_findings.txt")) {
+			// <prop>|<fn>/post:<slug> @ ...
+			if i := strings.Index(k, "|"); i >= 0 {
+				k = k[i+1:]
+			}
+			if j := strings.Index(k, "/post:"); j >= 0 {
+				slug := k[j+6:]
+				if a := strings.Index(slug, " @ "); a >= 0 {
+					slug = slug[:a]
+				}
+				slug = strings.TrimSuffix(strings.TrimSpace(slug), "…")
+				p.knownPosts[k[:j]+"|"+slug] = true
+			}
+		}
+	}
+	fn := shortFuncName(nil, false, fnKey)
+	sl := normalizeSlug(clauseText)
+	for k := range p.knownPosts {
+		parts := strings.SplitN(k, "|", 2)
+		if parts[0] == fn && strings.HasPrefix(sl, strings.TrimSuffix(parts[1], "…")) {
+			return true
+		}
+	}
+	return false
 }
